@@ -134,7 +134,10 @@ class C09(HistoryCheck):
             "runs inside the outbound-frame path, i.e. at the crash point 'right after this frame': (i) neither server "
             "connection is inside a transaction; (ii) the dump of all tables through an independent read-only connection to the "
             "files equals the dump through the server's own connection, for both databases; (iii) once per service "
-            "incarnation: PRAGMA synchronous >= FULL and journal_mode not off/memory on both server connections. Non-trivial = "
+            "incarnation: PRAGMA synchronous >= FULL and journal_mode not off/memory on both server connections; (iv) what the "
+            "frame acknowledges is already in the committed files: the message row for a `message` frame of the current add, the "
+            "nameplate/claim/mailbox-side rows for `claimed`/`allocated`, the cleared claim/open flag (or deleted object) for "
+            "`released`/`closed`. Non-trivial = "
             "a history with >=5 frames emitted by commands that had committed >=1 transaction; distinct by hash of (config, "
             "script); frames per type are listed under classes.")
     level = "exploration"
